@@ -2,7 +2,7 @@
    ExtrOcamlBasic only: bool/option/unit/list/prod/sumbool/sumor map to OCaml's;
    Z, positive, nat stay the extracted inductive types; no Extract Constant. *)
 From Coq Require Extraction ExtrOcamlBasic.
-From SV Require Import Lib.Base Model.WireBase Model.WireSixFrag Model.WireNhc Model.WireIphc.
+From SV Require Import Lib.Base Model.WireBase Model.WireSixFrag Model.WireNhc Model.WireNhcExt Model.WireIphc.
 From SV Require Import Model.Assembler Model.LowpanFrag Model.Lowpan Model.LowpanLive.
 Extraction Language OCaml.
 Cd "../ocaml/gen".
@@ -10,6 +10,7 @@ Extraction "lowpan_model.ml"
   sixfrag_emit sixfrag_parse sixfrag_new_checked sixfrag_payload sixfrag_buffer_len sixlowpan_dispatch
   nhc_dispatch nhc_udp_emit nhc_udp_parse nhc_udp_check_len nhc_udp_checksum nhc_udp_payload
   nhc_udp_header_len nhc_udp_src_port nhc_udp_dst_port
+  nhc_ext_emit nhc_ext_repr_parse nhc_ext_new_checked nhc_ext_payload nhc_ext_buffer_len
   iphc_emit iphc_buffer_len iphc_parse iphc_check_len iphc_header_len iphc_payload
   lp_dispatch lp_process_sixlowpan lp_dgram_of_bytes lp_ipv6_bytes lpf_slots_new lpf_remove_expired lpf_ieee_len
   lpf_frame_len sixfrag_bytes_of
